@@ -188,13 +188,16 @@ def clause_own_commit_pending(prog, rep):
         for bb, s in f.aggregates("Error", "OwnCommitPending"):
             n += 1
             ok_ct = ok_pc = False
-            for w in A.control_dependent_switches(f, bb):
+            for w in A.decision_switches(f, bb):
                 l = A._opl(f.term(w)["discr"])
                 dep, calls, consts = f.depends_on(l)
                 cs = list(consts)
                 for _, k in consts:
                     if isinstance(k, dict) and "promoted" in k and k["promoted"] < len(f.promoted):
                         cs += [(0, it) for it in f.promoted[k["promoted"]]]
+                # the tested values may be captured by a closure / handed to a classifying helper: follow them to where they are made
+                og = A.origins(prog, f, l, scope=K.core_scope(prog), max_frames=2)
+                calls = list(calls) + list(og.calls)
                 if any(isinstance(k, dict) and k.get("variant") == "Commit" and last_seg(k.get("agg")) == "ContentType" for _, k in cs) \
                         and any(c.name == "content_type" for c in calls):
                     ok_ct = True
